@@ -539,6 +539,7 @@ var c06iCorpus = []string{
 type c06iGen struct {
 	c      *Ctx
 	nloop  int
+	nfunc  int
 	inLoop int
 	inFunc int
 	funcs  []string
@@ -711,7 +712,11 @@ func (g *c06iGen) accessE(d int) string {
 			return g.call(d-1) + g.pick("", ".a", "[0]", "[1]", ".a[0]")
 		}
 	case 4:
-		return g.pick("type(", "range(", "undefinedFunc(", "len(") + g.pick("", g.anyE(0), g.anyE(0)+", "+g.anyE(0)) + ")"
+		if g.n(4) == 0 {
+			// range only over small literal bounds: a huge bound is a loop that never ends in practice
+			return "range(" + g.pick("", "2", "1, 3", "s", "null, 2", "l") + ")"
+		}
+		return g.pick("type(", "undefinedFunc(", "len(") + g.pick("", g.anyE(0), g.anyE(0)+", "+g.anyE(0)) + ")"
 	}
 	return g.pick(c06iVars...)
 }
@@ -795,7 +800,7 @@ func (g *c06iGen) stmt(d int, ind string) string {
 		it := ""
 		switch g.n(8) {
 		case 0, 1:
-			it = "range(" + g.pick("3", "1, 3", "0, 4, 2", "3, 1, -1", "2, 2", "1, 2, 0.5", "\"1\", 2", "n", "k, 3", "null", "1, \"x\"") + ")"
+			it = "range(" + g.pick("3", "1, 3", "0, 4, 2", "3, 1, -1", "2, 2", "1, 2, 0.5", "\"1\", 2", "len(l)", "0, len(u)", "null", "1, \"x\"") + ")"
 		case 2, 3:
 			it = g.pick("l", "u", "[1, 2, 3]", "[[1, 2], [3, 4]]")
 		case 4:
@@ -834,7 +839,10 @@ func (g *c06iGen) stmt(d int, ind string) string {
 		}
 		return s + "\n"
 	case 13, 14:
-		name := fmt.Sprintf("f%d", len(g.funcs)+1)
+		// a fresh name per declaration, visible to calls only AFTER its body is generated: no
+		// generated function can call itself (unbounded recursion is outside the guarantee)
+		g.nfunc++
+		name := fmt.Sprintf("f%d", g.nfunc)
 		params := g.pick("", "p", "p, q", "p, q=1", "p=2, q=l", "p, q=p", "p=n")
 		g.inFunc++
 		saved := g.inLoop
@@ -844,13 +852,16 @@ func (g *c06iGen) stmt(d int, ind string) string {
 		g.inFunc--
 		ret := ""
 		if g.n(5) != 0 {
-			ret = ind + "  return " + g.pick("p", "[p, q]", "n", "p + 1", g.anyE(1), "{\"a\" : [p]}", "func (z) {\n"+ind+"    n := n + 1\n"+ind+"    return [z, p]\n"+ind+"  }") + "\n"
-		}
-		if !strings.Contains(params, "q") {
-			ret = strings.Replace(ret, "q", "k", -1)
-		}
-		if !strings.Contains(params, "p") {
-			ret = strings.Replace(ret, "p", "n", -1)
+			// the templates name the parameters; without them the globals n / k stand in
+			pn, qn := "p", "q"
+			if !strings.Contains(params, "p") {
+				pn = "n"
+			}
+			if !strings.Contains(params, "q") {
+				qn = "k"
+			}
+			ret = ind + "  return " + g.pick(pn, "["+pn+", "+qn+"]", "n", pn+" + 1", g.anyE(1), "{\"a\" : ["+pn+"]}",
+				"func (z) {\n"+ind+"    n := n + 1\n"+ind+"    return [z, "+pn+"]\n"+ind+"  }") + "\n"
 		}
 		g.funcs = append(g.funcs, name)
 		return ind + "func " + name + "(" + params + ") {\n" + body + ret + ind + "}\n"
